@@ -53,11 +53,26 @@ def main():
     if rc != 0 or failed:
         print(out[-3000:])
     name = "seed_demo_" + re.sub(r"\W", "_", sid)
-    shutil.copy(demo, os.path.join(WT, "tests", name + ".rs"))
-    rc1, out1 = sh("cargo test --offline --test %s 2>&1" % name, WT)
-    sh("git checkout -- .", WT)
-    rc2, out2 = sh("cargo test --offline --test %s 2>&1" % name, WT)
-    os.remove(os.path.join(WT, "tests", name + ".rs"))
+    if "--unit" in sys.argv:
+        # the demonstration is a #[cfg(test)] module that is appended to a (private) source file
+        src = sys.argv[sys.argv.index("--unit") + 1]
+        def with_demo():
+            with open(os.path.join(WT, src), "a") as f:
+                f.write("\n" + open(demo).read())
+        with_demo()
+        rc1, out1 = sh("cargo test --offline --lib seeded_demo 2>&1", WT)
+        sh("git checkout -- .", WT)
+        with_demo()
+        rc2, out2 = sh("cargo test --offline --lib seeded_demo 2>&1", WT)
+        if "running 0 tests" in out2 and "test result: ok. 0 passed" in out2 and "seeded_demo" not in out2:
+            rc2 = 99
+        sh("git checkout -- .", WT)
+    else:
+        shutil.copy(demo, os.path.join(WT, "tests", name + ".rs"))
+        rc1, out1 = sh("cargo test --offline --test %s 2>&1" % name, WT)
+        sh("git checkout -- .", WT)
+        rc2, out2 = sh("cargo test --offline --test %s 2>&1" % name, WT)
+        os.remove(os.path.join(WT, "tests", name + ".rs"))
     meta["demo_with_change_exit"] = rc1
     meta["demo_without_change_exit"] = rc2
     print("demo with change: exit=%d (want !=0); without: exit=%d (want 0)" % (rc1, rc2))
